@@ -322,10 +322,17 @@ def run_job(job):
                 count("plural.gate-closed")
                 if any(r[2] == "plural" for r in res):
                     bad = "plural finding although the string is not documented as plural (or is pluralRule / numeric)"
+        posbad = None if bad else pos_claim(res, l10n)
         if bad:
             if len(out["viol"]) < 5:
                 out["viol"].append({"what": bad, "input": inp, "impl": canon})
             count("violations")
+        elif posbad:
+            # C06.printf_pos_in_value / printf_pos_points_at_pct: offsets are C17's subject, so a wrong offset is a
+            # broken tie to the theorems (disagreement), not a violation of the C06 property text
+            if len(out["dis"]) < 5:
+                out["dis"].append({"op": "pos-claim", "input": inp, "impl": canon, "what": posbad})
+            count("disagreements")
         elif mo is not None and mo != canon:
             if len(out["dis"]) < 5:
                 out["dis"].append({"op": "pcheck", "input": inp, "impl": canon, "model": mo})
@@ -334,6 +341,26 @@ def run_job(job):
             out["samples"].append({"input": inp, "result": canon})
     out["nontrivial"] = sorted(out["nontrivial"])
     return out
+
+
+def pos_claim(res, l10n):
+    """the position facts proved in Props/C06.lean (section 5), evaluated on the real result; None = they hold"""
+    raw, val, al = l10n.raw_val, l10n.val, l10n.all
+    for sev, pos, cat, msg in res:
+        n = int(pos[1:])
+        if pos[0] == "e":
+            if not (n < len(al) and al[n] == "\ufffd"):
+                return "EntityPos %d does not point at a U+FFFD of `all`" % n
+            continue
+        if n > len(raw):
+            return "offset %d lies behind the raw value (%d characters)" % (n, len(raw))
+        if cat == "printf" and not (n == 0 or (n < len(val) and val[n] == "%")):
+            return "printf offset %d is neither 0 nor the offset of a %% of the value" % n
+        if cat == "plural" and n != 0:
+            return "plural offset %d is not 0" % n
+        if cat == "escape" and not (n < len(raw) and raw[n] == "\\"):
+            return "escape offset %d does not point at a backslash of the raw value" % n
+    return None
 
 
 def replay_case(inp):
@@ -380,3 +407,245 @@ def impl_unescape(raw):
     if e is None:
         return None
     return [e.raw_val, e.val]
+
+
+# ------------------------------------------------------------------ round 4: grammar, lookup law, sessions
+def tokn_parses(val, i):
+    """all ways the token grammar of Proofs/C06Grammar.lean (`Tokn`) can read a token at the `%` val[i]:
+    a set of (length, kind, number, type).  A literal, priority-free enumeration of the grammar
+    `%%` | `%` [n `$`] [`*` | digits] [`.` [`*` | digits]] c   — no regular expression involved."""
+    n = len(val)
+    out = set()
+    if i + 1 < n and val[i + 1] == "%":
+        out.add((2, "pct", None, None))
+    nopts = [(i + 1, None)]
+    j = i + 1
+    if j < n and val[j] in "123456789":
+        k = j + 1
+        while True:
+            if k < n and val[k] == "$":
+                nopts.append((k + 1, int(val[j:k])))
+            if k < n and val[k] in DIG:
+                k += 1
+            else:
+                break
+    for a, num in nopts:
+        wopts = [a]
+        if a < n and val[a] == "*":
+            wopts.append(a + 1)
+        k = a
+        while k < n and val[k] in DIG:
+            k += 1
+            wopts.append(k)
+        for b in wopts:
+            popts = [b]
+            if b < n and val[b] == ".":
+                popts.append(b + 1)
+                if b + 1 < n and val[b + 1] == "*":
+                    popts.append(b + 2)
+                k = b + 1
+                while k < n and val[k] in DIG:
+                    k += 1
+                    popts.append(k)
+            for c in popts:
+                if c < n and val[c] in SPEC_CHARS:
+                    out.add((c + 1 - i, "arg", num, val[c]))
+    return out
+
+
+def grammar_tokens(val):
+    """the tokenisation of `val` by the grammar `Lex`: canonical string of c06.toks, or raises if the grammar is
+    ambiguous at some `%` (which `C06.lex_exists_unique` excludes)"""
+    out = []
+    i, n = 0, len(val)
+    while i < n:
+        if val[i] != "%":
+            i += 1
+            continue
+        ps = tokn_parses(val, i)
+        if len(ps) > 1:
+            raise RuntimeError("harness: the token grammar is ambiguous at offset %d of %r: %r" % (i, val, sorted(ps, key=repr)))
+        if not ps:
+            out.append("%d:lone" % i)
+            i += 1
+            continue
+        ln, kind, num, ty = next(iter(ps))
+        if kind == "pct":
+            out.append("%d:pct" % i)
+        else:
+            out.append("%d:arg:%s:%s" % (i, "-" if num is None else num, C.enc(ty)))
+        i += ln
+    return " ".join(["ok"] + out)
+
+
+def impl_toks(val):
+    """what the real `PropertiesChecker.printf.finditer(val)` finds, classified as getPrintfSpecs reads it"""
+    from compare_locales.checks.properties import PropertiesChecker
+    out = []
+    try:
+        for m in PropertiesChecker.printf.finditer(val):
+            if m.group("good") is None:
+                out.append("%d:lone" % m.start())
+            elif m.group("good") == "%":
+                out.append("%d:pct" % m.start())
+            else:
+                num = m.group("number")
+                out.append("%d:arg:%s:%s" % (m.start(), "-" if num is None else int(num), C.enc(m.group("spec"))))
+    except Exception:
+        return "raise"
+    return " ".join(["ok"] + out)
+
+
+def impl_rule(loc):
+    from compare_locales import plurals
+    try:
+        r = plurals.get_plural_rule(loc)
+        p = plurals.get_plural(loc)
+    except Exception:
+        return "raise"
+    if r is None and p is None:
+        return "None None"
+    if r is None or p is None:
+        return "inconsistent"
+    return "%d %d" % (r, len(p))
+
+
+def rule_law(loc):
+    """the prefix lookup law of C06.plural_rule_iff, read off the table itself: the entry whose key IS the tag; else
+    the entry whose key has no `-` and is the tag's text before its first `-`"""
+    from compare_locales import plurals
+    tbl = plurals.CATEGORIES_BY_LOCALE
+    if loc is None:
+        return None
+    own = [k for k in tbl if k == loc]
+    if own:
+        return tbl[own[0]]
+    lang = [k for k in tbl if "-" not in k and (loc == k or loc.startswith(k + "-"))]
+    if len(lang) > 1:
+        raise RuntimeError("harness: two language keys apply to %r: %r" % (loc, lang))
+    return tbl[lang[0]] if lang else None
+
+
+class _ReProxy:
+    """stands in for the `re` module inside checks/properties.py: records what the literal patterns of the real
+    code match"""
+
+    def __init__(self, real, log):
+        self._real, self._log = real, log
+
+    def __getattr__(self, name):
+        return getattr(self._real, name)
+
+    def finditer(self, pattern, string, *a, **k):
+        ms = list(self._real.finditer(pattern, string, *a, **k))
+        self._log.append((pattern, [m.group(1) for m in ms]))
+        return iter(ms)
+
+
+def impl_pvars(val):
+    """the variables the REAL `check_plural(val, val)` reads from its two `re.finditer` calls"""
+    import re
+    from compare_locales.checks import properties as M
+    log = []
+    ck = M.PropertiesChecker(None, locale=None)
+    real = M.re
+    M.re = _ReProxy(real, log)
+    try:
+        list(ck.check_plural(val, val))
+    except Exception:
+        return "raise"
+    finally:
+        M.re = real
+    if not log:
+        return "raise"
+    first = [int(g) for g in log[0][1]]
+    if len(log) > 1 and [int(g) for g in log[1][1]] != first:
+        return "differ"
+    if len(log) == 1 and first:
+        return "differ"
+    return " ".join(["ok"] + [str(x) for x in first])
+
+
+def scan_vars_list(val):
+    """the `#n` variables in order (grammar `LexP`: longest digit run after a `#`)"""
+    out = []
+    i, n = 0, len(val)
+    while i < n:
+        if val[i] == "#":
+            j = i + 1
+            while j < n and val[j] in DIG:
+                j += 1
+            if j > i + 1:
+                out.append(int(val[i + 1:j]))
+                i = j
+                continue
+        i += 1
+    return out
+
+
+def impl_verdict(refspecs, l10nval):
+    from compare_locales.checks.properties import PropertiesChecker
+    ck = PropertiesChecker(None)
+    try:
+        return canon_results(list(ck.checkPrintf(list(refspecs), l10nval)))
+    except Exception as e:      # noqa
+        return "raise %s" % type(e).__name__
+
+
+def get_checker_x(locale, extra):
+    from compare_locales.checks import getChecker
+    from compare_locales.paths import File
+    return getChecker(File("foo.properties", "foo.properties", locale=locale), extra_tests=extra)
+
+
+def run_history(job):
+    """sequences of entity pairs through ONE checker instance (forward, backward, with set_reference and with the
+    given extra_tests) and through fresh instances; job = {seqs: [{locale, extra, pairs: [[refTriple, l10nTriple]]}],
+    model}.  Returns violations (history dependence, oracle) and the pcheck lines of every pair."""
+    out = {"n": 0, "viol": [], "dis": [], "dist": {}, "nontrivial": set()}
+    lines, firsts, metas = [], [], []
+    for sq in job["seqs"]:
+        ents = [(parse_entity(*r), parse_entity(*l)) for r, l in sq["pairs"]]
+        if any(a is None or b is None for a, b in ents):
+            continue
+        loc, extra = sq["locale"], sq["extra"]
+        shared = get_checker_x(loc, extra)
+        A = [impl_check(shared, a, b) for a, b in ents]
+        B = [impl_check(get_checker_x(loc, None), a, b) for a, b in ents]
+        back = get_checker_x(loc, extra)
+        Cr = [impl_check(back, a, b) for a, b in reversed(ents)][::-1]
+        withref = get_checker_x(loc, extra)
+        D = []
+        for a, b in ents:
+            withref.set_reference([x for x, _ in ents])
+            D.append(impl_check(withref, a, b))
+        A2 = [impl_check(shared, a, b) for a, b in ents]        # the same instance, a second pass
+        out["n"] += len(ents)
+        for i, (a, b) in enumerate(ents):
+            inp = {"kind": "history", "locale": loc, "extra": extra, "pairs": sq["pairs"], "index": i}
+            same = (A[i] == B[i] == Cr[i] == D[i] == A2[i])
+            if not same:
+                if len(out["viol"]) < 5:
+                    out["viol"].append({"what": "the verdict for one pair depends on the checker's history / extra_tests: "
+                                                "shared %r, fresh %r, reversed %r, with reference %r, second pass %r"
+                                                % (A[i], B[i], Cr[i], D[i], A2[i]), "input": inp, "impl": A[i]})
+                out["dist"]["violations"] = out["dist"].get("violations", 0) + 1
+            lines.append(check_line(loc, a, b))
+            firsts.append(A[i])
+            metas.append(inp)
+            if len(A[i]) > 2:
+                out["nontrivial"].add(h(A[i]))
+        out["dist"]["history.seqs"] = out["dist"].get("history.seqs", 0) + 1
+    model = C.run_driver(lines) if (job.get("model", True) and lines) else [None] * len(lines)
+    for mo, a, inp in zip(model, firsts, metas):
+        if mo is not None and mo != a:
+            if len(out["dis"]) < 5:
+                out["dis"].append({"op": "pcheck-session", "input": inp, "impl": a, "model": mo})
+            out["dist"]["disagreements"] = out["dist"].get("disagreements", 0) + 1
+    out["nontrivial"] = sorted(out["nontrivial"])
+    return out
+
+
+def replay_history(inp):
+    r = run_history({"seqs": [{"locale": inp.get("locale"), "extra": inp.get("extra"), "pairs": inp["pairs"]}], "model": False})
+    return {"input": inp, "violations": r["viol"]}
